@@ -120,6 +120,9 @@ func c15sourceValue(v ssa.Value) bool {
 		return !x.CommaOk && c15isEnvMap(x.X)
 	case *ssa.Call:
 		_, isTuple := x.Type().(*types.Tuple)
+		if n := calleeName(&x.Call); n == c15propsRecv+"Keys" || n == c15propsRecv+"Len" {
+			return false // the list / number of keys is not the value of an option
+		}
 		return !isTuple && c15anyProps(x)
 	}
 	return false
@@ -407,6 +410,128 @@ func (fl *c15flow) orderOK(f *ssa.Function, depth int) bool {
 	return true
 }
 
+// c15entered: the repository functions a call can enter: its callees, or - for flag.FlagSet.Visit / VisitAll - the
+// callback handed to the library.
+func c15entered(i ssa.Instruction) []*ssa.Function {
+	cc := callCommon(i)
+	if cc == nil {
+		return nil
+	}
+	if _, isGo := i.(*ssa.Go); isGo {
+		return nil
+	}
+	if gs := c15callees(cc); len(gs) > 0 {
+		return gs
+	}
+	var out []*ssa.Function
+	if c15flagCall("Visit", "VisitAll")(i) && len(cc.Args) > 0 {
+		for _, g := range c15funcsOf(cc.Args[len(cc.Args)-1]) {
+			if isRepoFn(g) && len(g.Blocks) > 0 {
+				out = append(out, g)
+			}
+		}
+	}
+	return out
+}
+
+// c15mayCB: c15may that also enters the callbacks of Visit / VisitAll (a whole pass over the flags is then one
+// landmark of the function that starts it).
+func c15mayCB(i ssa.Instruction, pred func(ssa.Instruction) bool, depth int) bool {
+	if pred(i) {
+		return true
+	}
+	if depth > 5 {
+		return false
+	}
+	for _, g := range c15entered(i) {
+		hit := false
+		eachInstr(g, func(j ssa.Instruction) {
+			if !hit && c15mayCB(j, pred, depth+1) {
+				hit = true
+			}
+		})
+		if hit {
+			return true
+		}
+	}
+	return false
+}
+
+// passOrderOK: orderOK for a function that consults the sources in separate passes (a VisitAll pass for the
+// environment, then a pass over the flags or over the keys of the properties): no place that can consult the
+// properties can be followed by one that can consult the environment, and each can be preceded by one.
+func (fl *c15flow) passOrderOK(f *ssa.Function, depth int) bool {
+	var es, gs []ssa.Instruction
+	eachInstr(f, func(i ssa.Instruction) {
+		if c15mayCB(i, c15isEnvLookup, 0) {
+			es = append(es, i)
+		}
+		if c15mayCB(i, c15isPropsCall, 0) {
+			gs = append(gs, i)
+		}
+	})
+	for _, g := range gs {
+		preceded := false
+		for _, e := range es {
+			if e == g {
+				// both behind one call: decided inside
+				ok := depth < 5
+				for _, h := range c15entered(g) {
+					if !fl.passOrderOK(h, depth+1) {
+						ok = false
+					}
+				}
+				if !ok {
+					return false
+				}
+				preceded = true
+				continue
+			}
+			if pathAvoiding(g, e, nil) {
+				return false
+			}
+			if pathAvoiding(e, g, nil) {
+				preceded = true
+			}
+		}
+		if !preceded {
+			return false
+		}
+	}
+	return true
+}
+
+// c15propsValue: the result of a lookup in the properties (not the list or the number of their keys).
+func c15propsValue(v ssa.Value) bool {
+	call, ok := v.(*ssa.Call)
+	if !ok || !c15anyProps(call) {
+		return false
+	}
+	n := calleeName(&call.Call)
+	return n != c15propsRecv+"Keys" && n != c15propsRecv+"Len"
+}
+
+// c15keyedBySource: v is the result of a lookup in the properties under a key that was taken from the properties'
+// own list of keys (a loop over Properties.Keys()): the source then has a value for it.
+func c15keyedBySource(v ssa.Value) bool {
+	isKeys := func(x ssa.Value) bool {
+		call, ok := x.(*ssa.Call)
+		return ok && calleeName(&call.Call) == c15propsRecv+"Keys"
+	}
+	return c15derives(v, func(x ssa.Value) bool {
+		call, ok := x.(*ssa.Call)
+		if !ok || !c15propsValue(call) || len(call.Call.Args) < 2 {
+			return false
+		}
+		for _, a := range call.Call.Args[1:] {
+			if c15derives(a, isKeys) {
+				return true
+			}
+		}
+		return false
+	})
+}
+
 // reportsApplied: helper g tells its caller through the bool result idx that it applied a value: every return that
 // can follow an application returns the constant true.
 func (fl *c15flow) reportsApplied(g *ssa.Function, idx int) bool {
@@ -469,8 +594,18 @@ func (fl *c15flow) appliedCut(a ssa.Instruction) func(ssa.Value, bool) bool {
 func (fl *c15flow) stopOK(f *ssa.Function, depth int) (bool, ssa.Instruction) {
 	as := c15landmarks(f, c15isApply)
 	for _, a := range as {
+		// a path that, after a, passes a renewed "not yet set" test on its not-set edge belongs to the treatment of
+		// another flag (a loop over the keys of a source): the marks (markedOK) make the test fail for the same flag
+		applied := fl.appliedCut(a)
+		cut := func(cond ssa.Value, truth bool) bool {
+			if applied != nil && applied(cond, truth) {
+				return true
+			}
+			pos, isT := c15setTest(cond, 0)
+			return isT && truth != pos
+		}
 		for _, b := range as {
-			if c15pathCut(a, b, fl.appliedCut(a)) {
+			if c15pathCut(a, b, cut) {
 				return false, b
 			}
 		}
@@ -620,9 +755,12 @@ func runC15R2(c *Ctx) {
 	// 1. command line, then mark what it set, then the fallbacks
 	okPV, nVisit := c15before(pf, isParse, isVisit, 0)
 	okVA, nVisitAll := c15before(pf, isVisit, isVisitAll, 0)
-	ok := okPV && okVA && nVisit > 0 && nVisitAll > 0 && c15mayFn(pf, isParse, 0)
+	// a fallback value assigned outside the VisitAll pass (a loop over the keys of a source) must come after the marks
+	// of the command line as well
+	okVApply, _ := c15before(pf, isVisit, c15isApply, 0)
+	ok := okPV && okVA && okVApply && nVisit > 0 && nVisitAll > 0 && c15mayFn(pf, isParse, 0)
 	c.check("C15.R2", pfKey+"|command line, then mark, then fallbacks", pf.Pos(), ok,
-		"the command line must be parsed first, the flags set there marked (Visit) and only then the fallback sources consulted (VisitAll); any other order lets the environment or the file override the command line")
+		"the command line must be parsed first, the flags set there marked (Visit) and only then the fallback sources consulted (VisitAll, or any other place that assigns a fallback value); any other order lets the environment or the file override the command line")
 	if !ok {
 		return
 	}
@@ -663,9 +801,20 @@ func runC15R2(c *Ctx) {
 			nProps++
 		}
 	})
-	eachInstrOf(fl.fbReg, func(f *ssa.Function, i ssa.Instruction) {
+	// every place of the region that assigns a value to a flag is a fallback assignment (the command line is applied
+	// inside package flag): those of the VisitAll pass(es) and those of any other pass (a loop over the keys of the
+	// properties after the VisitAll pass over the environment)
+	inFallback := map[*ssa.Function]bool{}
+	for _, f := range fl.fbReg {
+		inFallback[f] = true
+	}
+	outer := false // some assignment is outside the VisitAll callbacks
+	eachInstrOf(fl.reg, func(f *ssa.Function, i ssa.Instruction) {
 		if c15isApply(i) {
 			applies = append(applies, i)
+			if !inFallback[f] {
+				outer = true
+			}
 		}
 	})
 	if nEnv == 0 || nProps == 0 || len(applies) == 0 {
@@ -718,6 +867,16 @@ func runC15R2(c *Ctx) {
 					return true
 				}
 			}
+			// a value looked up under a key taken from the source's own list of keys is present by construction
+			if cc := callCommon(at); cc != nil && needProps && !needEnv {
+				all := true
+				for _, arg := range cc.Args {
+					if c15derives(arg, c15propsValue) && !c15keyedBySource(arg) {
+						all = false
+					}
+				}
+				return all
+			}
 			return false
 		}
 		if !c15holdsAt(a, fl.sites, fl.stop, present, 0) {
@@ -742,21 +901,36 @@ func runC15R2(c *Ctx) {
 		"each fallback source supplies a value exactly when the key is present in it; the value must then be assigned through FlagSet.Set: "+presWhy)
 	// 3c-f. in the function(s) where the sources are consulted
 	seenCore := map[*ssa.Function]bool{}
+	var cores []*ssa.Function
 	for _, fb := range fl.fbs {
-		core := fl.core(fb)
-		if seenCore[core] {
-			continue
+		if core := fl.core(fb); !seenCore[core] {
+			seenCore[core] = true
+			cores = append(cores, core)
 		}
-		seenCore[core] = true
-		c.check("C15.R2", fbKey+"|environment before properties", core.Pos(), fl.orderOK(core, 0),
-			"the environment must be consulted before the properties file (documented precedence); the properties lookup must not be able to run first")
+	}
+	if outer && !seenCore[pf] {
+		// fallback values are also assigned outside the VisitAll pass(es): ParseFlags itself is looked at in the same
+		// way (its helpers are entered from the landmarks)
+		seenCore[pf] = true
+		cores = append(cores, pf)
+	}
+	orderMsg := "the environment must be consulted before the properties file (documented precedence); the properties lookup must not be able to run first"
+	passOrder := false
+	for _, core := range cores {
+		if len(c15landmarks(core, c15isEnvLookup)) == 0 && len(c15landmarks(core, c15isPropsCall)) > 0 {
+			// this pass consults the properties only: its place relative to the pass over the environment is decided in
+			// ParseFlags (below)
+			passOrder = true
+		} else {
+			c.check("C15.R2", fbKey+"|environment before properties", core.Pos(), fl.orderOK(core, 0), orderMsg)
+		}
 		okM, at := fl.markedOK(core, 0)
 		pos := core.Pos()
 		if at != nil {
 			pos = at.Pos()
 		}
 		c.check("C15.R2", fbKey+"|a supplied value marks the flag as set", pos, okM,
-			"when a fallback source supplies a value the flag must be recorded as set on every path that assigns it: otherwise IsSet() reports the wrong origin (registry.consul.register.addr is then overwritten by ui.addr)")
+			"when a fallback source supplies a value the flag must be recorded as set (the set-map of FlagSet, read by IsSet, means 'set by any source') on every path that assigns it, in whichever pass over the flags or over the keys of a source the assignment is made: otherwise the option does not take the same effect from every source - IsSet() reports it as not given and load() overwrites registry.consul.register.addr with ui.addr although the file or the environment set it")
 		okS, at := fl.stopOK(core, 0)
 		pos = core.Pos()
 		if at != nil {
@@ -771,6 +945,11 @@ func runC15R2(c *Ctx) {
 		}
 		c.check("C15.R2", fbKey+"|properties only when the environment has no value", pos, okP,
 			"the value of the properties file may become the assigned one only on paths on which the environment lookup reported no value")
+	}
+	if passOrder {
+		// separate passes: the pass over the environment marks what it assigns (above), the later pass leaves marked
+		// flags alone (3a); what remains is that the properties' pass cannot run before the environment's
+		c.check("C15.R2", fbKey+"|environment before properties", pf.Pos(), fl.passOrderOK(pf, 0), orderMsg+" (the sources are consulted in separate passes: the pass over the properties must follow the pass over the environment)")
 	}
 }
 
